@@ -54,6 +54,7 @@ fn cfg(build: Build, logger: LoggerKind, level: u8, key: [u64; 2]) -> Config {
         logger,
         level,
         build,
+        iface: None,
     }
 }
 
